@@ -487,6 +487,7 @@ func Mod(a, b *Term) *Term { return bi("mod", SInt, a, b) }
 
 // allocSyms: references created by allocation; two distinct ones denote distinct objects.
 var allocSyms = map[*Term]bool{}
+var allocSymNames = map[string]bool{}
 
 func Select(arr, idx *Term) *Term {
 	_, el := arr.Sort.ArrParts()
@@ -626,11 +627,11 @@ func relevantAxioms(roots []*Term) []*Term {
 	return out
 }
 
-func Exists(bound []*Term, body *Term) *Term {
+func Exists(bound []*Term, body *Term, pats ...*Term) *Term {
 	if !body.hasBV {
 		return body
 	}
-	return TC.mk(KQuant, "exists", SBool, []*Term{body}, bound, nil)
+	return TC.mk(KQuant, "exists", SBool, []*Term{body}, bound, pats)
 }
 
 // Subst replaces symbols/bound vars according to m (keyed by term id).
@@ -911,6 +912,16 @@ func (q *Query) Render(getModel bool, modelTerms []*Term) string {
 			sb.WriteString(")\n")
 			named[t] = name
 		}
+	}
+	// references created by allocation denote pairwise distinct objects
+	var allocNames []string
+	for _, n := range symNames {
+		if allocSymNames[n] {
+			allocNames = append(allocNames, quoteSym(n))
+		}
+	}
+	if len(allocNames) > 1 {
+		sb.WriteString("(assert (distinct " + strings.Join(allocNames, " ") + "))\n")
 	}
 	for _, a := range roots {
 		if a == True {
